@@ -104,6 +104,24 @@ SLICING = True
 
 
 def _check_sliced(c, e):
+    r = _check_sliced0(c, e)
+    if r == "unknown":
+        # same question with table look-ups as multiplexers and a fresh solver (see demux)
+        try:
+            s2 = z3.Solver()
+            s2.set("timeout", 30000)
+            for lit in c.lits:
+                s2.add(demux(lit[0]))
+            s2.add(demux(e))
+            r2 = str(s2.check())
+            if r2 != "unknown":
+                return r2
+        except z3.Z3Exception:
+            pass
+    return r
+
+
+def _check_sliced0(c, e):
     """satisfiability of (path condition and e).  Only the constraints sharing symbols (transitively) with e are sent:
     the rest is a satisfiable, independent conjunct (every path condition is kept satisfiable by construction), so the
     answer is the same - KLEE's constraint-independence optimisation."""
@@ -325,6 +343,33 @@ def _const_table(arr):
                 r = ([writes.get(k, d) for k in range(1 << iw)], iw, ow)
     _CONST_TABLES[i] = (arr, r)       # keeps the term alive: ids stay unique
     return r
+
+
+def selfcheck_demux():
+    """the multiplexer form means what the store chain means: for tables of several shapes (power-of-two and not, narrow and
+    wide values, a default that is written over) every index value is evaluated through both forms.  Returns an error
+    text or None; run once at the start of every check (a mismatch is a harness error, exit 2)."""
+    import random
+    rnd = random.Random(7)
+    for n, ow in ((2, 1), (16, 4), (64, 8), (200, 8), (256, 8), (256, 21), (100, 13)):
+        vals = [rnd.randrange(1 << ow) for _ in range(n)]
+        T = STable(list(vals), "selfcheck%d_%d" % (n, ow), ow)
+        arr = z3.simplify(T._array())
+        tab = _const_table(arr) or _const_table(T._array())
+        if tab is None:
+            return "demux: store chain of %d entries not recognised" % n
+        tv, iw, tw = tab
+        idx = z3.BitVec("selfcheck_i", iw)
+        m = demux(z3.Select(arr, idx) == z3.BitVecVal(0, tw))
+        if _has_table_select(m):
+            return "demux left a table select behind (n=%d)" % n
+        mux = _mux(tv, idx, iw, tw)
+        for k in range(1 << iw):
+            want = vals[k] if k < n else 0
+            got = z3.simplify(z3.substitute(mux, (idx, z3.BitVecVal(k, iw))))
+            if not z3.is_bv_value(got) or got.as_long() != want:
+                return "demux: table of %d entries, index %d: multiplexer gives %s, table holds %d" % (n, k, got, want)
+    return None
 
 
 def _is_table_select(t):
